@@ -531,7 +531,8 @@ func isPunct(c byte) bool {
 // class (alphanumeric, punctuation, white space) of the adjacent characters
 // (CommonMark "flanking" rules), so a bare punctuation payload is compared
 // with a benign value that has an inert punctuation character, a comma, at
-// the same ends, and white space payloads are only shown between two letters.
+// the same ends (see mdBenign), and white space payloads are only shown
+// between two letters.
 func (sd *spaceDef) attacks(pl payload) []attack {
 	var as []attack
 	wrapped := attack{"z+" + pl.name + "+z", "z" + pl.s + "z", benign}
@@ -540,18 +541,63 @@ func (sd *spaceDef) attacks(pl payload) []attack {
 		if pl.name == "newline" || pl.name == "space" {
 			return []attack{wrapped}
 		}
-		if isPunct(pl.s[0]) {
-			bare.benign = "," + bare.benign
-		}
-		if isPunct(pl.s[len(pl.s)-1]) {
-			bare.benign += ","
-		}
+		bare.benign = "" // chosen by mdBenign from the rendered attack value
 	}
 	as = append(as, bare)
 	if sd.wrapAll || pl.name == "newline" || pl.name == "space" || pl.name == "equals" {
 		as = append(as, wrapped)
 	}
 	return as
+}
+
+// mdBenign returns the benign value to compare a bare Markdown attack value
+// with: "zz" with a comma at the ends where the RENDERED attack value (which
+// may be escaped, for example %22 in a URL) starts or ends with ASCII
+// punctuation. It returns "" if the rendered value starts or ends with
+// anything else than ASCII letters, digits and punctuation (white space, a
+// no-break space): no benign value has the same flanking behaviour.
+func mdBenign(v *variant, val string) string {
+	b0 := v.base(benign)
+	if b0.status != "" {
+		return ""
+	}
+	out, err := run(v, val)
+	if err != nil {
+		return ""
+	}
+	i := 0
+	for i < len(out) && i < len(b0.out) && out[i] == b0.out[i] {
+		i++
+	}
+	j := 0
+	for j < len(out)-i && j < len(b0.out)-i && out[len(out)-1-j] == b0.out[len(b0.out)-1-j] {
+		j++
+	}
+	seg := out[i : len(out)-j]
+	if seg == "" {
+		return ""
+	}
+	class := func(c byte) int {
+		switch {
+		case isPunct(c):
+			return 1
+		case '0' <= c && c <= '9' || 'a' <= c && c <= 'z' || 'A' <= c && c <= 'Z':
+			return 0
+		}
+		return -1
+	}
+	l, r := class(seg[0]), class(seg[len(seg)-1])
+	if l < 0 || r < 0 {
+		return ""
+	}
+	bv := benign
+	if l == 1 {
+		bv = "," + bv
+	}
+	if r == 1 {
+		bv += ","
+	}
+	return bv
 }
 
 // check runs variant v with the attack value and compares with the benign rendering.
@@ -663,6 +709,11 @@ func (sd *spaceDef) evalEntry(e *entry, pl payload) kit.Outcome {
 		used := false
 		var vfail *failure
 		for _, at := range attacks {
+			if at.benign == "" {
+				if at.benign = mdBenign(v, at.val); at.benign == "" {
+					continue
+				}
+			}
 			b := v.base(at.benign)
 			if b.status != "" {
 				if skip == "" {
